@@ -40,7 +40,10 @@ def get_env(mod, name):
     return getattr(mod, name)
 
 
-DATA = {"empty": b"", "one": b"\x7f", "frame": bytes(range(8)), "odd": bytes(range(1, 12)), "all256": bytes(range(256))}
+DATA = {"empty": b"", "one": b"\x7f", "frame": bytes(range(8)), "odd": bytes(range(1, 12)), "all256": bytes(range(256)),
+        # payloads at and around typical buffer sizes (a writer that treats large chunks differently)
+        "64k-1": bytes(i * 7 % 251 for i in range(65535)), "64k": bytes(i * 7 % 251 for i in range(65536)),
+        "64k+8": bytes(i * 7 % 251 for i in range(65544)), "256k": bytes(i * 13 % 253 for i in range(262144))}
 
 
 def apply_spec(mod, spec):
@@ -263,8 +266,8 @@ def object_cases(ctx):
     for i in range(128):
         add("single-slot", [{"k": "sample", "i": i, "data": "all256"}])
     for dn in DATA:
-        for fmt in (1, 2, 4):
-            for st in (False, True):
+        for fmt in (1, 2, 4) if len(DATA[dn]) < 1000 else (2,):
+            for st in (False, True) if len(DATA[dn]) < 1000 else (False,):
                 add("data-format-channels", [{"k": "sample", "i": 1, "data": dn, "format": fmt, "stereo": st}])
     fields = {
         "volume": [0, 1, 64, 255], "finetune": [-128, -1, 0, 1, 127], "panning": [-128, -1, 0, 1, 127],
